@@ -271,7 +271,8 @@ def run(ctx):
     specs = [{
         "module": "checks.c12", "params": params, "bound": bound,
         "opts": {"time_horizon": 60.0, "drain": 2.0, "max_points": 12000,
-                 "free_switch_cost": 1},
+                 "free_switch_cost": 1,
+                     "time_jump_cost": None if ctx.quick else 1},
         "budget": 3000 if ctx.quick else 30000,
     } for params in scenario_params(ctx.tier)]
     if not ctx.quick:
